@@ -23,6 +23,8 @@ var sharedProgs = []string{
 	`allof(x > 0, allof(x > 1, x > 2)) || x == 0`, `[pick(x > 3, twice(x), x), twice(x + 1)]`, `string(xs)`, `string(m)`, `string(o)`, `string([xs, xs])`, `string(mb)`,
 	`string([x: s])`, `string({p: xs, q: [x]})`, `[xs, xs]`, `{a: xs, b: m}`, `len(string(xs)) + len(string(m)) + x`, `union(xs, [x]) == intersect(xs, xs)`,
 	`string(union([[x]], [[x], [1]]))`, `if(x > 1, string(xs), string(m))`, `twice(twice(x)) + pick(x > 1, twice(x), 0)`,
+	// lazy arguments that FAIL at run time for some inputs (x = 3..6 is out of range): error paths of thunk evaluation
+	`pick(x >= 0, xs[x], 0)`, `y + pick(x > 2, xs[x], x)`, `pick(x > 4, m["zz"], twice(x)) + 1`, `allof(x > 2, xs[x] > 0) || x < 3`, `[pick(x > 5, xs[9], x), twice(x)]`,
 }
 
 func newEngine(kind int) *yae.Expr {
